@@ -52,12 +52,19 @@ func ruleFsWho(p *Prog, r *RuleResult) {
 			continue
 		}
 		fname := p.FnName(f)
+		if p.isForwarder(f) {
+			r.exempt(fname, p.Pos(f.Pos()), "thin forwarder to "+forwarderFns[f].FullName()+": its call sites are held to the rules instead")
+			continue
+		}
 		eachInstr(f, func(i ssa.Instruction) {
 			c := callOf(i)
 			if c == nil {
 				return
 			}
 			o := calleeObj(c)
+			if t := fwdTarget[c]; t != nil {
+				o = t
+			}
 			if o == nil || o.Pkg() == nil {
 				return
 			}
@@ -431,7 +438,7 @@ func ruleRemoveOrder(p *Prog, r *RuleResult) {
 	covered := map[*ssa.Function]bool{}
 	var todo []*ssa.Function
 	for _, f := range p.ModFns {
-		if p.Rel(f) != "app" || f.Parent() != nil {
+		if p.Rel(f) != "app" || f.Parent() != nil || p.isForwarder(f) {
 			continue
 		}
 		hasClose := false
@@ -454,7 +461,7 @@ func ruleRemoveOrder(p *Prog, r *RuleResult) {
 		}
 	}
 	for _, f := range p.ModFns {
-		if p.Rel(f) != "app" || f.Parent() != nil || covered[f] {
+		if p.Rel(f) != "app" || f.Parent() != nil || covered[f] || p.isForwarder(f) {
 			continue
 		}
 		already := false
